@@ -50,20 +50,26 @@ CHECKS = {
         level='exploration', ref='DESIGN.md §4 C05',
         technique='deterministic simulation with a seeded scheduler: library generators are cooperative tasks, the '
                   'scheduler picks which advances next, interleaved with direct reads on one handle; refinement '
-                  'against run-alone executions and the stateless model; bounded-progress drain',
+                  'against run-alone executions and the stateless model; bounded-progress drain; transient EIO / caller '
+                  'interruption on the handle; a second, sibling file open at the same time',
         text='The scheduler interleaves up to 8 live generators (file-level and channel-level chunk streams, value '
              'iterators) with index / slice / window reads on one lazily opened handle; every yielded item must equal '
              'the item the same generator yields when run alone on a fresh handle, every direct read must equal the '
-             'stateless model, and once only one generator is advanced it must finish within remaining+1 steps.'),
+             'stateless model, and once only one generator is advanced it must finish within remaining+1 steps. In a fifth of '
+             'the worlds one read of the handle meets a transient EIO or a KeyboardInterrupt (that read may fail, later ones '
+             'must be right); in 30% a second file - same objects, sizes and lengths, data distributed differently - is open '
+             'and read in between; 10% of the files are cut short inside their last segment.'),
     'C06': dict(
         level='fault_enumeration', ref='DESIGN.md §4 C06',
         technique='deterministic simulation with crash injection: the producer is killed at EVERY byte offset of '
-                  'each seeded world; truncated file read eagerly + lazily (SimFS and real files) against the prefix '
-                  'oracle from the reference model',
+                  'each seeded world (longer files: every structural offset and a seeded sample of raw-data offsets); '
+                  'truncated file read eagerly + lazily (SimFile stream, BytesIO, real path, buffered and unbuffered '
+                  'real file objects) against the prefix oracle from the reference model; stub-made and TdmsWriter-made files',
         text='Crash points are enumerated exhaustively per world (every cut 4..len), worlds are seeded. Per cut: no '
              'exception, values are a prefix of the complete file, at least the values of segments wholly before the '
-             'cut, len() equals the count returned, lazy == eager, incomplete_final_segment exactly when the cut is '
-             'strictly inside raw data (boundary cases the statement leaves open are don\'t-care).'),
+             'cut, len() equals the count returned, lazy == eager, incomplete_final_segment exactly when the first byte '
+             'lost is a raw-data byte of a segment (with the length-unknown marker the boundary itself is don\'t-care). A '
+             'read loop that keeps asking a stream at end of file is reported as no-progress (liveness in I/O steps).'),
     'C11': dict(
         level='exploration', ref='DESIGN.md §4 C11',
         technique='deterministic simulation: DAQmx stub producer with random buffers, seeded delivery schedule, lazy '
@@ -91,8 +97,9 @@ CHECKS = {
     'C07': dict(
         level='exploration', ref='DESIGN.md §4 C07',
         technique='deterministic simulation: the real TdmsWriter driven by seeded write_segment programs on simulated / '
-                  'real storage with scheduler-chosen session ends and append sessions; reader output vs the '
-                  'concatenation / last-write-wins model after every session',
+                  'real storage with scheduler-chosen session ends and append sessions, and two writers alive at once as '
+                  'cooperative tasks under a seeded schedule; reader output vs the concatenation / last-write-wins '
+                  'model after every session',
         text='Seeded programs over every supported array dtype / list / string / datetime form and property value type '
              '(integer width boundaries, NaN payloads, multi-byte text, nasty names), split into sessions by the '
              'scheduler, written to SimFS paths, SimFile streams, BytesIO or real files; after each session the file is '
@@ -120,7 +127,8 @@ CHECKS = {
         level='exploration', ref='DESIGN.md §4 C10',
         technique='deterministic simulation (fault-free): reader->writer composition through simulated storage; source '
                   'and destination read with raw timestamps and compared; destination parsed by the strict parser; '
-                  'descriptor table checked',
+                  'descriptor table checked; 15% of the sources are files cut short by a crash; stub-made sources are also '
+                  'compared with the reference model',
         text='Seeded non-DAQmx sources (stub- and writer-made; fragmented, typeless / empty / property-only channels, '
              'strings, full-range raw timestamps, NI_Scale properties) are defragmented to paths and streams with and '
              'without index; groups, channels, properties, lengths, bit-identical raw values, dtype (when len >= 1) and '
@@ -145,13 +153,15 @@ CHECKS = {
              'len(channel) elements.'),
     'C20': dict(
         level='fault_enumeration', ref='DESIGN.md §4 C20',
-        technique='deterministic simulation with fault injection on the simulated descriptor table: EIO at every read '
-                  'event, every structural field garbled, foreign index, close() at every position of an op history '
-                  'with suspended generators; /proc/self/fd sample on real files',
+        technique='deterministic simulation with fault injection on the simulated descriptor table: every open() call '
+                  'failing, EIO and caller interruption at every read event, ENOSPC at every write event, every structural '
+                  'field garbled, foreign index, close() at every position of an op history with suspended generators, '
+                  'overlapping lifetimes of two TdmsFile objects; /proc/self/fd sample on real files',
         text='Per seeded world and API scenario (read, read_metadata, open+ops+close, with-open, defragment, TdmsWriter '
              'with-block; path and stream; with and without index) the fault points are enumerated exhaustively: after '
              'the call returns or raises no library-owned handle may be open and no caller-owned stream closed; close() '
-             'twice is a no-op; after close every read raises or returns the model\'s value.'),
+             'twice is a no-op; after close every read raises or returns the model\'s value; closing one of two open files '
+             'leaves the other usable and its descriptors open.'),
 }
 
 NOT_APPLICABLE = [
@@ -192,8 +202,8 @@ def main():
         'setup_cmd': './check selftest setup',
         'hooks': {
             'guard': 'NPTDMS_VERIF',
-            'enable': 'no hooks exist in /repo: every seam (stream arguments, module-global open/os of nptdms.reader '
-                      'and nptdms.writer, function defaults, generators) is reached from outside; the checks import '
+            'enable': 'no hooks exist in /repo: every seam (stream arguments, the process-wide open / os.path / os.stat dispatch on simulated file names, one optional function default of nptdms.reader, '
+                      'generators as cooperative tasks) is reached from outside; the checks import '
                       'nptdms from the working tree of VERIF_REPO (default /repo), pure Python, nothing to build',
             'baseline_off_cmd': 'cd /repo && /venv/bin/python -m pytest -ra -q -p no:cacheprovider --timeout=900 '
                                 '--continue-on-collection-errors',
